@@ -83,14 +83,15 @@ pub fn build_case<const N: usize, const CH: u8>() {
 /// 4: root(left: node with left child, right: leaf)  [what `new` builds for 4 colours]
 pub fn find_case<const SHAPE: usize, const CH: u8>() {
     let n = SHAPE;
-    let mut c = [[0u8; 3]; 4];
-    let mut i = 0;
-    while i < 4 {
-        if i < n {
-            c[i] = color(CH);
-        }
-        i += 1;
-    }
+    // no harness-side loops: the unwinding bound also bounds the recursion of `find_rec`,
+    // whose child indices live on the heap and are not constant for the symbolic executor
+    let zero = [0u8; 3];
+    let c = [
+        color(CH),
+        if n > 1 { color(CH) } else { zero },
+        if n > 2 { color(CH) } else { zero },
+        if n > 3 { color(CH) } else { zero },
+    ];
     let nodes: Vec<([u8; 3], usize, usize, Option<usize>, Option<usize>)> = match SHAPE {
         1 => vec![(c[0], 0, 0, None, None)],
         2 => {
@@ -119,12 +120,15 @@ pub fn find_case<const SHAPE: usize, const CH: u8>() {
     assert!(index < n && f == c[index], "C13: returned index does not name the returned colour");
     let best = dist(q, f);
     witness!(best > 0, "query is not a palette colour");
-    let mut i = 0;
-    while i < 4 {
-        if i < n {
-            assert!(best <= dist(q, c[i]), "C13: a palette colour is closer than the one returned");
-        }
-        i += 1;
+    assert!(best <= dist(q, c[0]), "C13: a palette colour is closer than the one returned");
+    if n > 1 {
+        assert!(best <= dist(q, c[1]), "C13: a palette colour is closer than the one returned");
+    }
+    if n > 2 {
+        assert!(best <= dist(q, c[2]), "C13: a palette colour is closer than the one returned");
+    }
+    if n > 3 {
+        assert!(best <= dist(q, c[3]), "C13: a palette colour is closer than the one returned");
     }
     std::mem::forget(tree);
 }
